@@ -32,6 +32,9 @@ type c02Cfg struct {
 	// GapMs: half of the timestamp alphabet (and the sentinel) lies this much later in event time - a source silent
 	// for more than a day, all of it far behind the clock
 	GapMs int64 `json:"gap_ms,omitempty"`
+	// Alpha: a reduced timestamp alphabet (longer scripts: several late rows into one fired window with another
+	// window firing in between)
+	Alpha []int64 `json:"alphabet_ms,omitempty"`
 }
 
 func (c c02Cfg) sentinel() int64 { return 500000 + c.GapMs }
@@ -73,6 +76,9 @@ func c02Configs(tier string) []c02Cfg {
 				out = append(out, c02Cfg{Kind: kind, OOOMs: ooo, LateMs: late, MaxL: maxL, Specials: true})
 				if kind == "session" {
 					out = append(out, c02Cfg{Kind: kind, OOOMs: ooo, LateMs: late, MaxL: maxL, Pusher: true})
+				}
+				if kind != "session" && late == 3000 && ooo == 0 {
+					out = append(out, c02Cfg{Kind: kind, OOOMs: ooo, LateMs: late, MaxL: maxL + 1, Alpha: []int64{10000, 11000, 13000, 14500, 16000}})
 				}
 				if late <= 1000 && ooo == 2000 {
 					out = append(out, c02Cfg{Kind: kind, OOOMs: ooo, LateMs: late, MaxL: maxL, GapMs: 36 * 3600 * 1000})
@@ -143,6 +149,12 @@ func c02Symbols(c c02Cfg) []c02Sym {
 		}
 		for _, t := range []int64{12000, 13000, 14500, 16000, 20000} {
 			out = append(out, c02Sym{t, "b"})
+		}
+		return out
+	}
+	if len(c.Alpha) > 0 {
+		for _, t := range c.Alpha {
+			out = append(out, c02Sym{t, ""})
 		}
 		return out
 	}
